@@ -501,7 +501,36 @@ def _api_monitor2(seed, i, fam, n, out):
     def imu_from_caller_tensors():
         im = pp.module.IMUPreintegrator(pos=ip, rot=ir, vel=iv, reset=False).double()
         im(idt[:3], igy[:3], iac[:3]); return im(idt[3:], igy[3:], iac[3:])
+    idt0 = idt.clone(); idt0[2] = 0.0                       # a duplicated time stamp: one exact zero among the intervals
+    def imu_zero_interval():
+        im = pp.module.IMUPreintegrator(pos=ip, rot=ir, vel=iv, reset=False).double()
+        return im(idt0, igy, iac)
+    # a controller that is stepped with caller-owned loss tensors, reset and used again
+    l0, l1, l2 = g("l0", ()).abs() + 3, g("l1", ()).abs() + 2, g("l2", ()).abs() + 1
+    lb0, lb1 = g("lb0", (3,)).abs() + 3, g("lb1", (3,)).abs() + 1
+    def stepper_reuse():
+        sp = pp.utils.ReduceToBason(steps=4, patience=2, decreasing=1e-3)
+        sp.step(l0); sp.step(l1); sp.reset(); sp.step(l2); sp.continual(); sp.reset()
+        sb = pp.utils.ReduceToBason(steps=4, patience=2, decreasing=1e-3)
+        sb.step(lb0); sb.step(lb1); sb.reset(); sb.step(lb0)
+    # a filter whose noise covariances are given at construction, used, re-tuned through the setter and used again
+    Q2, R2 = torch.eye(3, dtype=dt) * 0.3, torch.eye(3, dtype=dt) * 0.2
+    Q1, R1 = torch.eye(3, dtype=dt) * 0.1, torch.eye(3, dtype=dt) * 0.05
+    def retune(cls):
+        def run():
+            f = cls(_Lin(), Q1, R1)
+            f(xk, xk * 1.1, xk * 0.0, Ppsd + Qk)
+            f.set_uncertainty(Q=Q2, R=R2)
+            f(xk, xk * 1.1, xk * 0.0, Ppsd + Qk)
+            f.set_uncertainty(Q=Q1)
+            return f(xk, xk * 1.1, xk * 0.0, Ppsd + Qk)
+        return run
     calls = [
+        ("IMU:zero-interval", imu_zero_interval, [ip, iv, ir, idt0, igy, iac]),
+        ("ReduceToBason:step-reset-step", stepper_reuse, [l0, l1, l2, lb0, lb1]),
+        ("EKF:retuned-between-steps", retune(pp.module.EKF), [Q1, R1, Q2, R2, xk, Ppsd]),
+        ("UKF:retuned-between-steps", retune(pp.module.UKF), [Q1, R1, Q2, R2, xk, Ppsd]),
+        ("PF:retuned-between-steps", retune(pp.module.PF), [Q1, R1, Q2, R2, xk, Ppsd]),
         ("LQR:nominal", lqr_nominal, [Alti, Blti, Qlq, plq, x0lq, u0lq]), ("MPC:nominal", mpc_nominal, [Alti, Blti, Qlq, plq, x0lq, u0lq]),
         ("System:systime-then-calls", clock_then_call, [tgrid, x0lq, u0lq]),
         ("IMU:constructor-tensors-then-forward", imu_from_caller_tensors, [ip, iv, ir, idt, igy, iac]),
